@@ -1412,9 +1412,11 @@ func call(n *node) {
 					}
 				default:
 					val := v(f)
-					if val.IsZero() && dest[i].Kind() != reflect.Interface {
+					if val.IsZero() && dest[i].Kind() != reflect.Interface && val.Type() != dest[i].Type() {
 						// Work around a recursive struct zero interface issue.
 						// Once there is a better way to handle this case, the dest can just be set.
+						// A value of the type of dest is always set: IsZero also holds for
+						// a floating-point negative zero, which must not be dropped.
 						continue
 					}
 					if nod, ok := val.Interface().(*node); ok && nod.recv != nil {
